@@ -254,7 +254,7 @@ def gen_scan(rng):
 
 
 def gen_case(rng, tier, flavour=None):
-    flavour = flavour or rng.choice(["mixed"] * 20 + ["valid"] * 8 + ["rejects"] * 4 + ["addtime"] * 4 + ["cost"] * 3 + ["big"] * 2)
+    flavour = flavour or rng.choice(["mixed"] * 20 + ["valid"] * 8 + ["rejects"] * 4 + ["addtime"] * 4 + ["cost"] * 3 + ["big"] * 2 + ["bigtext"] * 2)
     ctor = {"add_time": True}
     if flavour == "addtime" or (flavour == "mixed" and rng.random() < 0.1):
         ctor["add_time"] = False
@@ -295,6 +295,10 @@ def gen_case(rng, tier, flavour=None):
         elif kind == "unser":
             j = rng.randrange(len(kw))
             kw[j][1] = poison(rng, kw[j][1])
+        if flavour == "bigtext" and i == 0:
+            # a report of 10-45 kB carrying non-ASCII text: well below the size limit on the wire
+            kw = [["blob", {"t": "str", "v": "a" * rng.randint(10000, 45000) + rng.choice(["\U0001F600", "日本", "é", "\u2028", "ß\u0085"])}]]
+            kind = "ok"
         if i == big_at:
             # around the size limit: payload length near 50000 - getsizeof("")
             target = 50000 - sys.getsizeof("") + rng.choice([-400, -120, -3, -2, -1, 0, 1, 2, 50, 3000])
@@ -309,7 +313,7 @@ def gen_case(rng, tier, flavour=None):
         if rs.MARKER not in pending + s:
             ops.append({"op": "noise", "text": s})
             pending += s
-    return {"ctor": ctor, "ops": ops, "retrieve": ["local"] if flavour == "big" else ["local", "keepends", "text"], "clean": True,
+    return {"ctor": ctor, "ops": ops, "retrieve": ["local"] if flavour in ("big", "bigtext") else ["local", "keepends", "text"], "clean": True,
             "t0": float(2 ** 30 + rng.randint(0, 10 ** 6)).hex(), "scans": [gen_scan(rng) for _ in range(rng.choice([0, 1, 2]))]}
 
 
@@ -493,8 +497,32 @@ def run_local_backend(spec):
         be.set_path(results_root=root, tuner_name="t")
         os.makedirs(be.trial_path(0), exist_ok=True)
         be._trial_dict[0] = Trial(trial_id=0, config={}, creation_time=datetime.datetime(2020, 1, 1))
-        be._read_status = lambda trial_id: Status.in_progress
-        be._is_process_done = lambda trial_id: False
+        # the training process: runs until it has written its last piece, then exits. `between` holds a step of the process
+        # which happens in the middle of a poll, i.e. between the two reads a poll makes (the log and the process
+        # status), in whichever order the backend makes them
+        proc = {"done": False, "between": None}
+
+        def mid_poll():
+            step, proc["between"] = proc["between"], None
+            if step is not None:
+                step()
+
+        o_stdout = be.stdout
+
+        def read_status(trial_id):
+            st = Status.completed if proc["done"] else Status.in_progress
+            mid_poll()
+            return st
+
+        def read_stdout(trial_id):
+            out = o_stdout(trial_id)
+            mid_poll()
+            return out
+
+        be._read_status = read_status
+        be.stdout = read_stdout
+        be._is_process_done = lambda trial_id: proc["done"]
+        be.rotate_gpus = False  # (GPU bookkeeping is set up when a process is started, which this case never does)
         rep = Reporter()
         pieces, sent = [], []
         for i in range(spec["n_reports"]):
@@ -527,11 +555,37 @@ def run_local_backend(spec):
                                 "detail": {"pieces": pieces[:12]}})
                     break
                 got_last = got
-        res = be._all_trial_results([0])[0]
-        got = [m.get("step") for m in res.metrics]
-        if not mon and got != sent:
-            mon.append({"signature": "c18:local-backend-poll-loses-report",
-                        "what": f"final poll returned steps {got}, expected {sent}", "detail": {"pieces": pieces[:12]}})
+        # the process writes one more report and exits: before the next poll, or in the middle of it
+        buf = io.StringIO()
+        with contextlib.redirect_stdout(buf):
+            rep(step=spec["n_reports"], loss=0.5)
+        sent.append(spec["n_reports"])
+
+        def finish():
+            with open(path, "a") as f:
+                f.write(buf.getvalue())
+            proc["done"] = True
+
+        if rng.random() < 0.6:
+            proc["between"] = finish
+        else:
+            finish()
+        for _ in range(3):
+            res = be._all_trial_results([0])[0]
+            polls += 1
+            got = [m.get("step") for m in res.metrics]
+            if res.status != Status.in_progress:
+                # the tuning loop does not poll a trial again once it is reported as finished
+                if not mon and got != sent:
+                    mon.append({"signature": "c18:local-backend-poll-loses-report",
+                                "what": f"the poll which reports the trial as {res.status} returned steps {got}, the script reported {sent} "
+                                        f"before it exited (its last report and its exit fell between the two reads of that poll)",
+                                "detail": {"pieces": pieces[:12]}})
+                break
+        else:
+            if not mon:
+                mon.append({"signature": "c18:local-backend-never-finished", "what": "the process has exited, three polls later the trial is "
+                            "still reported as in progress", "detail": None})
     finally:
         shutil.rmtree(root, ignore_errors=True)
     return {"lines": [], "monitor": mon, "meta": {"hist": {"local_backend_cases": 1, "local_backend_polls": polls},
